@@ -162,6 +162,9 @@ class ExplorerScriptSsbDecompiler:
             # from the start of its routine) would not compile: this script can not be written as ExplorerScript.
             assert self.labels_referenced <= self.labels_written, "A label that is jumped to was not written."
 
+            # The passes above worked on self._routine_ops: leave the routines as they were given, so that converting
+            # again gives the same result.
+            self._routine_ops = raw_routine_backup_ops
             return self._output, self.smb.build()
 
         except Exception:
